@@ -1,16 +1,18 @@
 // Package off provides classes that write OFF files
 // OFF files store TES pulses projected into a linear basis
 // OFF files have a JSON header followed by a single newline
-// after the header records are written sequentially in little endian format
+// after the header come the projectors and basis as float64 binary data (sizes given in the header),
+// then records are written sequentially in little endian format (file format version 0.3.0)
 // bytes		type			meaning
 // 0-3      int32     recordSamples (could be calculated from nearest neighbor pulses in princple)
 // 4-7      int32     recordPreSamples (could be calculated from nearest neighbor pulses in princple)
 // 8-15     int64     framecount
 // 16-23    int64     timestamp from time.Time.UnixNano()
 // 24-27    float32   pretriggerMean (from raw data, not from modeled pulse, really shouldn't be neccesary, just in case for now!)
-// 28-31    float32   residualStdDev (in raw data space, not Mahalanobis distance)
-// 32-Z     float32   the NumberOfBases model coefficients of the pulse projected in to the model
-// Z = 31+4*NumberOfBases
+// 28-31    float32   pretriggerDelta (change of the raw data across the pretrigger region; added in version 0.3.0)
+// 32-35    float32   residualStdDev (in raw data space, not Mahalanobis distance)
+// 36-Z     float32   the NumberOfBases model coefficients of the pulse projected in to the model
+// Z = 35+4*NumberOfBases
 package off
 
 import (
